@@ -145,17 +145,6 @@ Proof.
   - apply IH. intros i Hi. apply (H (S i)). cbn; lia.
 Qed.
 
-Lemma nth_opt_repeat {A} (a : A) k q : (q < k)%nat -> nth_opt (repeat a k) q = Some a.
-Proof. revert q; induction k as [|k IH]; intros [|q] H; cbn; try lia; auto. apply IH. lia. Qed.
-
-Lemma nth_opt_ext {A} (l l' : list A) : (forall i, nth_opt l i = nth_opt l' i) -> l = l'.
-Proof.
-  revert l'; induction l as [|x t IH]; intros [|y t'] H; auto.
-  - specialize (H 0%nat). discriminate.
-  - specialize (H 0%nat). discriminate.
-  - f_equal; [specialize (H 0%nat); cbn in H; congruence|]. apply IH. intros i. apply (H (S i)).
-Qed.
-
 (* Greedy with at least two parts: what the scan computes *)
 Lemma greedy_inv ws k p0 p : (2 <= k)%nat -> greedy ws k p0 = Ok p ->
   length ws = length p0 /\ exists pw,
